@@ -3,7 +3,8 @@ import numpy as np
 
 from vmon.oracle import geometry as G
 
-CELL_CLASSES = ["ortho", "tri+++", "tri++-", "tri+-+", "tri+--", "tri-++", "tri-+-", "tri--+", "tri---", "tri_minimal", "ortho_minimal"]
+CELL_CLASSES = ["ortho", "tri+++", "tri++-", "tri+-+", "tri+--", "tri-++", "tri-+-", "tri--+", "tri---", "tri_minimal", "ortho_minimal",
+                "upper_tri", "general_tri", "rotated_ortho"]
 POSES = ["random", "identity", "rot90", "rot180", "axis_parallel", "axis_antiparallel", "axis_near_antiparallel", "axis_antiparallel_exact", "identity_exact"]
 
 
@@ -17,6 +18,20 @@ def make_cell(rng, cls, need):
             a, b, c = need + rng.uniform(3.0, 8.0, 3)
         if cls.startswith("ortho"):
             cell = np.diag([a, b, c])
+        elif cls in ("upper_tri", "general_tri", "rotated_ortho"):
+            # cells that are not in LAMMPS' lower-triangular form: tilt carried by the earlier cell vectors (upper
+            # triangle), an arbitrarily oriented triclinic cell, an arbitrarily oriented cell with right angles
+            sg = rng.choice([-1, 1], 3)
+            t = rng.uniform(0.12, 0.48, 3)
+            low = np.array([[a, 0, 0], [sg[0] * t[0] * a, b, 0], [sg[1] * t[1] * a, sg[2] * t[2] * b, c]])
+            if cls == "upper_tri":
+                cell = low.T.copy()
+                if rng.integers(3) == 0:
+                    cell[0, 2] = cell[1, 2] = 0.0      # only one tilt, in the upper triangle: a = (ax, ay, 0)
+            elif cls == "general_tri":
+                cell = low.dot(G.random_rotation(rng).T)
+            else:
+                cell = np.diag([a, b, c]).dot(G.random_rotation(rng).T)
         else:
             if cls == "tri_minimal":
                 sg = rng.choice([-1, 1], 3)
